@@ -5,6 +5,7 @@ false alarms of the checks (a check that fires on one of them is wrong, not the 
 import json, sys
 pid, wt, out = sys.argv[1], sys.argv[2], sys.argv[3]
 n = sys.argv[4] if len(sys.argv) > 4 else "4"
+focus = sys.argv[5] if len(sys.argv) > 5 else ""
 p = [json.loads(l) for l in open("/verif/properties.jsonl") if json.loads(l)["id"] == pid][0]
 mech = "\n".join("    - %s (%s)" % (m["name"], m["where"]) for m in p["anchors"].get("mechanism", []))
 print(f"""You are a maintainer of the Rust project `anything` (udoprog/anything): the `any` CLI, a unit-aware calculator with exact BigRational arithmetic, a hand-written lexer/parser, dimensional analysis and a tantivy-indexed fact lookup.
@@ -24,7 +25,7 @@ Your task: produce {n} DIFFERENT, independent, BEHAVIOUR-PRESERVING source chang
   - rewriting control flow in an equivalent form: `match` <-> `if let` / `let else`, `for` <-> `while let`, early return <-> nested if, `?` <-> explicit match, a boolean flag <-> an enum or Option, iterator adaptor chain <-> explicit loop;
   - replacing an API call by an equivalent one (`x.is_zero()` <-> `x == zero`, `a * b` <-> `b * a` for commutative exact arithmetic ONLY where the result is provably identical, `checked_add(..).ok_or(..)?` <-> match on the Option, `entry().or_insert` <-> `get_mut` / `insert`, `Vec::push` in a loop <-> `extend` / `collect`);
   - adding a doc comment, a `debug_assert!` that always holds, a `#[inline]`, a `const` for a repeated literal, an unused private helper, a new private field that is never read.
-  Each change should touch a few lines to a few dozen lines, in the functions listed above (or their direct helpers), and different changes should touch different functions or use different kinds of rewrite. At least one of them should be a real restructuring (helper extraction, loop form change or control-flow rewrite), not just renaming.
+  Each change should touch a few lines to a few dozen lines, in the functions listed above (or their direct helpers), and different changes should touch different functions or use different kinds of rewrite. At least one of them should be a real restructuring (helper extraction, loop form change or control-flow rewrite), not just renaming. {focus}
 
 Each change must
   1. COMPILE without new warnings turned into errors (cargo build --offline),
